@@ -9,6 +9,9 @@ use proptest::prelude::*;
 
 const CHARS: &[&str] = &[
     "A", "b", "7", " ", "_", "D", "L", "T", "\u{1}", "\u{7f}", "é", "ß", "€", "日", "𝄞", "~", "/", "\"", "<", "&",
+    // scalars that text-handling code likes to treat specially: byte order mark, zero-width and no-break space,
+    // controls, a combining mark, a bidi override, the replacement character, the last scalar
+    "\u{feff}", "\u{200b}", "\u{a0}", "\t", "\n", "\r", "\u{301}", "\u{202e}", "\u{fffd}", "\u{10ffff}", "\u{85}", "\u{2028}",
 ];
 
 /// UTF-8 string of at most `max` bytes without NUL, from a small repertoire incl. multi-byte scalars
@@ -209,10 +212,13 @@ pub struct MsgParams {
     pub pool_ids: bool,
     /// fix the five header flags (bits 0-4 of HTYP) and the MSIN byte (systematic grid of C02)
     pub cell: Option<(u8, u8)>,
+    /// non-verbose / control messages may carry a non-zero NOAR byte (real ECUs do: the crate's own documentation
+    /// example is a control message with NOAR = 1); off where the quantifier asks for "argument count consistent"
+    pub free_noar: bool,
 }
 impl Default for MsgParams {
     fn default() -> Self {
-        MsgParams { storage: StorageMode::Either, large: true, pool_ids: false, cell: None }
+        MsgParams { storage: StorageMode::Either, large: true, pool_ids: false, cell: None, free_noar: false }
     }
 }
 
@@ -373,6 +379,10 @@ pub fn message(p: MsgParams) -> BoxedStrategy<RMsg> {
         Just(None).boxed()
     };
     let cell = p.cell;
+    let free_noar = p.free_noar;
+    // "magic" knob: HTYP, MCNT and LEN of the message itself spell a 4-byte marker of the DLT ecosystem — the storage
+    // pattern "DLT\x01" or the serial-header marker "DLS\x01" (version 2, ECU id only, counter 'L', length 0x5401 / 0x5301)
+    let magic = if large && cell.is_none() { prop_oneof![400 => Just(None), 1 => prop::sample::select(vec![0x5401u16, 0x5301]).prop_map(Some)].boxed() } else { Just(None).boxed() };
     let flags_ueh = match cell {
         Some((f, _)) => (any::<u8>().prop_map(move |r| (r & 0xe0) | (f & 0x1f)), Just(f & UEH != 0)).boxed(),
         None => (any::<u8>(), prop::bool::weighted(0.8)).boxed(),
@@ -381,9 +391,13 @@ pub fn message(p: MsgParams) -> BoxedStrategy<RMsg> {
         (flags_ueh, any::<u8>(), storage).prop_map(|((f, u), m, s)| (f, u, m, s)),
         (idg.clone(), idg.clone(), idg.clone(), idg),
         (any::<u32>(), any::<u32>(), any::<u32>(), any::<u32>()),
-        fill,
+        (fill, magic, prop_oneof![6 => Just(0u8), 2 => 1u8..4, 1 => any::<u8>()]),
     )
-        .prop_flat_map(move |((flags, ueh, mcnt, with_storage), ids, nums, fill)| {
+        .prop_flat_map(move |((flags, ueh, mcnt, with_storage), ids, nums, (fill, magic, noar))| {
+            let (flags, ueh, mcnt, fill) = match magic {
+                Some(len) => (0x44u8, false, b'L', Some(len as u32)),
+                None => (flags, ueh, mcnt, fill),
+            };
             let spec = match cell {
                 Some((_, msin)) if ueh => payload_for_msin(msin, large),
                 _ => payload_spec(ueh, large),
@@ -406,7 +420,7 @@ pub fn message(p: MsgParams) -> BoxedStrategy<RMsg> {
                     ecu: if htyp & WEID != 0 { Some(ecu) } else { None },
                     seid: if htyp & WSID != 0 { Some(seid) } else { None },
                     tmsp: if htyp & WTMS != 0 { Some(tmsp) } else { None },
-                    ext: if ueh { Some(RExt { msin, noar: 0, apid, ctid }) } else { None },
+                    ext: if ueh { Some(RExt { msin, noar: if free_noar { noar } else { 0 }, apid, ctid }) } else { None },
                     payload,
                 };
                 finish(m, fill)
